@@ -64,9 +64,9 @@ def poolWrites : List String := []
 
 def poolReadsSyncPath : List String := ["node/pegnet/addresses.go:IsIncludedTopPEGAddress:pool:SELECT:p.DB", "node/pegnet/addresses.go:SelectBalances:pool-arg:p.selectBalances", "node/pegnet/addresses.go:SelectIssuances:pool:SELECT:p.DB", "node/pegnet/grading.go:SelectPreviousWinners:pool:SELECT:p.DB", "node/pegnet/grading.go:SelectRates:pool:SELECT:p.DB", "node/pegnet/txbatchholding.go:SelectTransactionBatchesInHoldingAtHeight:pool:SELECT:p.DB"]
 
-def discardedErrors : List String := ["node/sync.go:DBlockSync:NullifyBurnAddress", "node/sync.go:DBlockSync:NullifyBurnAddress", "node/sync.go:ApplyTransactionBatchesInHolding:SetTransactionHistoryExecuted", "node/sync.go:ApplyTransactionBatchesInHolding:SetTransactionHistoryExecuted", "node/sync.go:ApplyTransactionBatchesInHolding:SetTransactionHistoryExecuted", "node/sync.go:ApplyTransactionBlock:SetTransactionHistoryExecuted"]
+def discardedErrors : List String := ["node/sync.go:DBlockSync:NullifyBurnAddress", "node/sync.go:DBlockSync:NullifyBurnAddress"]
 
-def logOnlyErrors : List String := ["node/opr.go:Grade:err != nil", "node/spr.go:GradeS:err != nil", "node/sync.go:NullifyMintedTokens:err != nil", "node/sync.go:NullifyBurnAddress:err != nil", "node/sync.go:NullifyBurnAddress:err != nil", "node/sync.go:NullifyBurnAddress:err != nil", "node/sync.go:NullifyBurnAddress:err != nil", "node/sync.go:SyncBlock:err != nil", "node/sync.go:recordBatch:err != nil"]
+def logOnlyErrors : List String := ["node/opr.go:Grade:err != nil", "node/spr.go:GradeS:err != nil", "node/sync.go:NullifyMintedTokens:err != nil", "node/sync.go:NullifyBurnAddress:err != nil", "node/sync.go:NullifyBurnAddress:err != nil", "node/sync.go:NullifyBurnAddress:err != nil", "node/sync.go:NullifyBurnAddress:err != nil", "node/sync.go:recordBatch:err != nil"]
 
 def blankAssignedErrors : List String := ["node/conversions/conversionlimit.go:Refund:Convert", "node/conversions/conversionlimit.go:Refund:Convert", "node/sync.go:recordPegnetRequests:Convert"]
 
@@ -76,9 +76,9 @@ def sorts : List String := ["node/sync.go:SnapshotPayouts:sort.Slice"]
 
 def timeNow : List String := ["node/pegnet/admin.go:markHeightSyncedVersion:time.Now", "node/sync.go:DBlockSync:time.Now", "node/sync.go:DBlockSync:time.Now", "node/sync.go:DBlockSync:time.Now", "node/sync.go:SnapshotPayouts:time.Now", "node/sync.go:DevelopersPayouts:time.Now"]
 
-def sharedState : List String := ["node/average.go:GetPegNetRateAverages:node:LastAveragesHeight", "node/average.go:GetPegNetRateAverages:node:LastAverages", "node/average.go:GetPegNetRateAverages:node:LastAveragesData", "node/average.go:GetPegNetRateAverages:node:LastAveragesData", "node/average.go:GetPegNetRateAverages:node:LastAveragesHeight", "node/average.go:GetPegNetRateAverages:node:LastAverages", "node/average.go:GetPegNetRateAverages:node:LastAveragesHeight", "node/average.go:GetPegNetRateAverages:node:LastAveragesHeight", "node/average.go:GetPegNetRateAverages:node:LastAveragesHeight", "node/node.go:NewPegnetd:node:Synced", "node/sync.go:GetCurrentSync:node:Synced", "node/sync.go:DBlockSync:node:Synced", "node/sync.go:DBlockSync:node:Synced", "node/sync.go:DBlockSync:node:Synced", "node/sync.go:DBlockSync:node:Synced", "node/sync.go:DBlockSync:node:Synced", "node/sync.go:DBlockSync:node:Synced", "node/sync.go:DBlockSync:node:Synced", "node/sync.go:DBlockSync:node:Synced", "node/sync.go:DBlockSync:node:Synced", "node/sync.go:DBlockSync:node:Synced", "node/sync.go:DBlockSync:node:Synced", "node/sync.go:DBlockSync:node:Synced", "node/sync.go:DBlockSync:node:Synced", "node/sync.go:DBlockSync:node:Synced", "node/sync.go:DBlockSync:node:Synced", "node/sync.go:DBlockSync:node:Synced", "node/sync.go:DBlockSync:node:Synced", "node/sync.go:DBlockSync:node:Synced", "node/sync.go:DBlockSync:node:Synced", "node/sync.go:DBlockSync:node:Synced", "node/sync.go:DBlockSync:node:Synced", "node/sync.go:SyncBlock:node:Synced", "node/sync.go:SyncBlock:node:Synced", "srv/methods.go:getBank:srv:Synced", "srv/methods.go:getMiningDominance:srv:Synced", "srv/methods.go:getMiningDominance:srv:Synced", "srv/methods.go:getMiningDominance:srv:Synced", "srv/methods.go:getGlobalRichList:srv:call:GetCurrentSync", "srv/methods.go:getGlobalRichList:srv:call:GetPegNetRateAverages", "srv/methods.go:getRichList:srv:call:GetCurrentSync", "srv/methods.go:getRichList:srv:call:GetPegNetRateAverages", "srv/methods.go:getPegnetRates:srv:Synced", "srv/methods.go:getSyncStatus:srv:call:GetCurrentSync", "srv/methods.go:getSyncStatus:srv:call:GetCurrentSync", "srv/methods.go:getGraded:srv:Synced"]
+def sharedState : List String := ["node/average.go:GetPegNetRateAverages:node:LastAveragesHeight", "node/average.go:GetPegNetRateAverages:node:LastAverages", "node/average.go:GetPegNetRateAverages:node:LastAveragesData", "node/average.go:GetPegNetRateAverages:node:LastAveragesData", "node/average.go:GetPegNetRateAverages:node:LastAveragesHeight", "node/average.go:GetPegNetRateAverages:node:LastAverages", "node/average.go:GetPegNetRateAverages:node:LastAveragesHeight", "node/average.go:GetPegNetRateAverages:node:LastAveragesHeight", "node/average.go:GetPegNetRateAverages:node:LastAveragesHeight", "node/node.go:NewPegnetd:node:Synced", "node/sync.go:GetCurrentSync:node:Synced", "node/sync.go:DBlockSync:node:Synced", "node/sync.go:DBlockSync:node:Synced", "node/sync.go:DBlockSync:node:Synced", "node/sync.go:DBlockSync:node:Synced", "node/sync.go:DBlockSync:node:Synced", "node/sync.go:DBlockSync:node:Synced", "node/sync.go:DBlockSync:node:Synced", "node/sync.go:DBlockSync:node:Synced", "node/sync.go:DBlockSync:node:Synced", "node/sync.go:DBlockSync:node:Synced", "node/sync.go:DBlockSync:node:Synced", "node/sync.go:DBlockSync:node:Synced", "node/sync.go:DBlockSync:node:Synced", "node/sync.go:DBlockSync:node:Synced", "node/sync.go:DBlockSync:node:Synced", "node/sync.go:DBlockSync:node:Synced", "node/sync.go:DBlockSync:node:Synced", "node/sync.go:DBlockSync:node:Synced", "node/sync.go:DBlockSync:node:Synced", "node/sync.go:DBlockSync:node:Synced", "node/sync.go:DBlockSync:node:Synced", "node/sync.go:SyncBlock:node:Synced", "node/sync.go:SyncBlock:node:Synced", "srv/methods.go:getBank:srv:Synced", "srv/methods.go:getMiningDominance:srv:Synced", "srv/methods.go:getMiningDominance:srv:Synced", "srv/methods.go:getMiningDominance:srv:Synced", "srv/methods.go:rateAverages:srv:private:s.avgMu", "srv/methods.go:rateAverages:srv:private:s.avgMu", "srv/methods.go:rateAverages:srv:private:s.avgNode", "srv/methods.go:rateAverages:srv:new:node.Pegnetd{Pegnet: s.Node.Pegnet}", "srv/methods.go:rateAverages:srv:private:s.avgNode", "srv/methods.go:rateAverages:srv:call:s.avgNode.GetPegNetRateAverages", "srv/methods.go:rateAverages:srv:private:s.avgNode", "srv/methods.go:getGlobalRichList:srv:call:s.Node.GetCurrentSync", "srv/methods.go:getRichList:srv:call:s.Node.GetCurrentSync", "srv/methods.go:getPegnetRates:srv:Synced", "srv/methods.go:getSyncStatus:srv:call:s.Node.GetCurrentSync", "srv/methods.go:getSyncStatus:srv:call:s.Node.GetCurrentSync", "srv/methods.go:getGraded:srv:Synced"]
 
-def apiSharedState : List String := ["srv/methods.go:getBank:srv:Synced", "srv/methods.go:getMiningDominance:srv:Synced", "srv/methods.go:getMiningDominance:srv:Synced", "srv/methods.go:getMiningDominance:srv:Synced", "srv/methods.go:getGlobalRichList:srv:call:GetCurrentSync", "srv/methods.go:getGlobalRichList:srv:call:GetPegNetRateAverages", "srv/methods.go:getRichList:srv:call:GetCurrentSync", "srv/methods.go:getRichList:srv:call:GetPegNetRateAverages", "srv/methods.go:getPegnetRates:srv:Synced", "srv/methods.go:getSyncStatus:srv:call:GetCurrentSync", "srv/methods.go:getSyncStatus:srv:call:GetCurrentSync", "srv/methods.go:getGraded:srv:Synced"]
+def apiSharedState : List String := ["srv/methods.go:getBank:srv:Synced", "srv/methods.go:getMiningDominance:srv:Synced", "srv/methods.go:getMiningDominance:srv:Synced", "srv/methods.go:getMiningDominance:srv:Synced", "srv/methods.go:rateAverages:srv:private:s.avgMu", "srv/methods.go:rateAverages:srv:private:s.avgMu", "srv/methods.go:rateAverages:srv:private:s.avgNode", "srv/methods.go:rateAverages:srv:new:node.Pegnetd{Pegnet: s.Node.Pegnet}", "srv/methods.go:rateAverages:srv:private:s.avgNode", "srv/methods.go:rateAverages:srv:call:s.avgNode.GetPegNetRateAverages", "srv/methods.go:rateAverages:srv:private:s.avgNode", "srv/methods.go:getGlobalRichList:srv:call:s.Node.GetCurrentSync", "srv/methods.go:getRichList:srv:call:s.Node.GetCurrentSync", "srv/methods.go:getPegnetRates:srv:Synced", "srv/methods.go:getSyncStatus:srv:call:s.Node.GetCurrentSync", "srv/methods.go:getSyncStatus:srv:call:s.Node.GetCurrentSync", "srv/methods.go:getGraded:srv:Synced"]
 
 def goStatements : List String := ["cmd/root.go:always:cmd:go:func() {", "node/sync.go:multiFetch:node:go:func() {", "srv/srv.go:Start:srv:go:func() {", "srv/srv.go:Start:srv:go:func() {"]
 
